@@ -1,46 +1,26 @@
-(* C03 and C17 for the functions GENERATED from src/blend.rs (tools/rs2coq.py), where every integer
-   operation is checked in its Rust type.  `BlendGen.blend m` is what the code runs for a layer whose
-   blend mode id is m: parse_blend_mode (layer.rs), blend_mode_to_blend_fn (file.rs), then blend.rs.
-   Only statements closed by `exact`; not part of _CoqProject (compiled by tools/gencheck.py). *)
-From Ase Require Import Base.Prelude Model.Blend Proofs.BlendLaws Proofs.BlendRef.
-From Ase Require Spec.AseRef.
+(* C17 for the functions GENERATED from src/blend.rs (tools/rs2coq.py), where every integer operation is checked in its Rust
+   type.  `BlendGen.blend m` is what the code runs for a layer whose blend mode id is m: parse_blend_mode (layer.rs),
+   blend_mode_to_blend_fn (file.rs), then blend.rs.  These statements do NOT depend on what the colour functions compute
+   (BlendGenStruct.v), except the two guarded HSL range statements, which speak about the model's guard (BlendGenEqHsl.v).
+   Only statements closed by `exact`; not part of _CoqProject (compiled by the C17 check). *)
+From Ase Require Import Base.Prelude Model.Blend Proofs.BlendLaws.
 From AseGen Require BlendGen.
-From AseGen Require Import BlendGenEq.
+From AseGen Require Import BlendGenStruct BlendGenEqHsl.
 
-Theorem GEN_tie : forall (m : Z) (b s : pixel) (o : Z),
-  0 <= m <= 18 -> pix_wf b -> pix_wf s -> is_byte o ->
-  BlendGen.blend m b s o = blend m b s o.
-Proof. exact gen_blend. Qed.
-Print Assumptions GEN_tie.
+(* what the code runs for mode id m is Normal, or the model's wrapper `blender` around the generated baseline of that mode *)
+Theorem GEN_struct : forall (m : Z) (b s : pixel) (o : Z),
+  0 <= m <= 18 -> pix_wf b -> pix_wf s -> is_byte o -> BlendGen.blend m b s o = gblend m b s o.
+Proof. exact gen_blend_struct. Qed.
+Print Assumptions GEN_struct.
+
+Theorem GEN_baselines_shape : forall m : Z, 0 <= m <= 18 -> baseline_ok_wf (gbase m).
+Proof. exact gbase_ok. Qed.
+Print Assumptions GEN_baselines_shape.
 
 Theorem GEN_tie_refuses : forall (m : Z) (b s : pixel) (o : Z),
   ~ (0 <= m <= 18) -> BlendGen.blend m b s o = None.
-Proof. exact gen_blend_refuses. Qed.
+Proof. exact BlendGenStruct.gen_blend_refuses. Qed.
 Print Assumptions GEN_tie_refuses.
-
-Theorem C03_int_gen : forall (m : Z) (b s : pixel) (o : Z),
-  In m [0; 1; 2; 3; 4; 5; 6; 7; 8; 10; 11; 16; 17; 18] ->
-  pix_wf b -> pix_wf s -> is_byte o ->
-  exists p, BlendGen.blend m b s o = Some p /\ pix_wf p /\
-            AseRef.blend_n m (pack b) (pack s) o = Some (pack p).
-Proof. exact C03_int_gen_proof. Qed.
-Print Assumptions C03_int_gen.
-
-Theorem C03_soft_gen : forall (b s : pixel) (o : Z),
-  pix_wf b -> pix_wf s -> is_byte o ->
-  exists p, BlendGen.blend 9 b s o = Some p /\ pix_wf p /\
-            AseRef.blend_n 9 (pack b) (pack s) o = Some (pack p).
-Proof. exact C03_soft_gen_proof. Qed.
-Print Assumptions C03_soft_gen.
-
-Theorem C03_hsl_partial_gen : forall (m : Z) (b s : pixel) (o : Z),
-  m = 12 \/ m = 13 \/ m = 14 \/ m = 15 ->
-  pix_wf b -> pix_wf s -> is_byte o ->
-  hsl_guard m b s = true ->
-  exists p, BlendGen.blend m b s o = Some p /\ pix_wf p /\
-            AseRef.blend_n m (pack b) (pack s) o = Some (pack p).
-Proof. exact C03_hsl_partial_gen_proof. Qed.
-Print Assumptions C03_hsl_partial_gen.
 
 Theorem C17_alpha_gen : forall (m : Z) (b s : pixel) (o : Z) (p q : pixel),
   pix_wf b -> pix_wf s -> is_byte o ->
@@ -97,3 +77,4 @@ Theorem C17_range_hsl_only_failure_gen : forall (m : Z) (b s : pixel) (o : Z),
   (BlendGen.blend m b s o = None <-> (pix_alpha b <> 0 /\ hsl_ok m b s = false)).
 Proof. exact C17_range_hsl_only_failure_gen_proof. Qed.
 Print Assumptions C17_range_hsl_only_failure_gen.
+
